@@ -386,4 +386,18 @@ theorem C03_pipeline_translated (icfg : ICfg) (buf : Serve.Buf) (reqHdrs : HdrMa
 
 #print axioms C03_pipeline_translated
 
+
+/-- **C03 (translated handlers).** `handleNonCORS` and `handleCORSActual` — everything the middleware does to a request
+that is not a preflight — are translated from /repo's middleware.go into Lean on every run (Gen/Pipeline.lean); for every
+internal configuration, response headers already present, Origin value and method kind each translated function equals
+the hand-written model's.  An edit of one of these Go functions that changes its meaning, or leaves the translated
+subset of Go, breaks this obligation. -/
+theorem C03_handlers_translated (icfg : ICfg) (h : HdrMap) (origin : Bytes) (isOPTIONS : Bool) :
+    Gen.Pipeline.handleNonCORS icfg h isOPTIONS = Serve.handleNonCORS icfg h isOPTIONS ∧
+    Gen.Pipeline.handleCORSActual icfg h origin [origin] isOPTIONS =
+      Serve.handleCORSActual (Serve.modelDec icfg) icfg h origin isOPTIONS :=
+  Translated.handlers_eq icfg h origin isOPTIONS
+
+#print axioms C03_handlers_translated
+
 end Cors
